@@ -1237,13 +1237,23 @@ fn emit_target(ctx: &mut Ctx, unit: &Unit, t: &Target) -> Emitted {
 
     // crude call graph: identifiers directly followed by an argument list in the lowered body
     fn collect_calls(ts: TokenStream, out: &mut std::collections::BTreeSet<String>) {
+        // calls that can name a function of the same impl / file: `self.f(..)`, `Self::f(..)`, bare `f(..)`
         let toks: Vec<proc_macro2::TokenTree> = ts.into_iter().collect();
         for i in 0..toks.len() {
             if let proc_macro2::TokenTree::Group(g) = &toks[i] {
                 collect_calls(g.stream(), out);
                 if g.delimiter() == proc_macro2::Delimiter::Parenthesis && i > 0 {
                     if let proc_macro2::TokenTree::Ident(id) = &toks[i - 1] {
-                        out.insert(id.to_string());
+                        let is_punct = |k: usize, c: char| matches!(toks.get(k), Some(proc_macro2::TokenTree::Punct(p)) if p.as_char() == c);
+                        let is_ident = |k: usize, s: &str| matches!(toks.get(k), Some(proc_macro2::TokenTree::Ident(x)) if x == s);
+                        let ok = if i >= 2 && is_punct(i - 2, '.') {
+                            i >= 3 && is_ident(i - 3, "self") && !(i >= 4 && is_punct(i - 4, '.'))
+                        } else if i >= 3 && is_punct(i - 2, ':') && is_punct(i - 3, ':') {
+                            i >= 4 && is_ident(i - 4, "Self")
+                        } else {
+                            true
+                        };
+                        if ok { out.insert(id.to_string()); }
                     }
                 }
             }
